@@ -1,4 +1,4 @@
-use crate::internal::{consts, MiniAllocator, ObjType, SectorInit};
+use crate::internal::{consts, MiniAllocator, ObjType, SectorInit, Version};
 use std::io::{self, BufRead, Read, Seek, SeekFrom, Write};
 #[cfg(cfb_verif)]
 use crate::internal::sync::RwLock;
@@ -89,8 +89,11 @@ impl<F: Read + Write + Seek> Stream<F> {
     pub fn set_len(&mut self, size: u64) -> io::Result<()> {
         if size != self.total_len {
             let new_position = self.current_position().min(size);
-            self.flush_changes()?;
             let minialloc = self.minialloc()?;
+            // Refuse an impossible length before the buffer is written back,
+            // so that a refused call changes nothing.
+            check_stream_len(minialloc.read().unwrap().version(), size)?;
+            self.flush_changes()?;
             resize_stream(
                 &mut minialloc.write().unwrap(),
                 self.stream_id,
@@ -334,6 +337,21 @@ fn read_data_from_stream<F: Read + Seek>(
     Ok(num_bytes)
 }
 
+/// Returns an error if no stream in a file of this version can have the given
+/// length (the FAT cannot number more than MAX_REGULAR_SECTOR sectors).
+fn check_stream_len(version: Version, stream_len: u64) -> io::Result<()> {
+    let max_stream_len = (consts::MAX_REGULAR_SECTOR as u64)
+        * (version.sector_len() as u64);
+    if stream_len > max_stream_len {
+        invalid_input!(
+            "Cannot resize stream to {} bytes (maximum is {} bytes)",
+            stream_len,
+            max_stream_len
+        );
+    }
+    Ok(())
+}
+
 fn write_data_to_stream<F: Read + Write + Seek>(
     minialloc: &mut MiniAllocator<F>,
     stream_id: u32,
@@ -445,17 +463,8 @@ fn resize_stream<F: Read + Write + Seek>(
         debug_assert_eq!(dir_entry.obj_type, ObjType::Stream);
         (dir_entry.start_sector, dir_entry.stream_len)
     };
-    // Refuse lengths that no chain can have before touching anything (the
-    // FAT cannot number more than MAX_REGULAR_SECTOR sectors).
-    let max_stream_len = (consts::MAX_REGULAR_SECTOR as u64)
-        * (minialloc.version().sector_len() as u64);
-    if new_stream_len > max_stream_len {
-        invalid_input!(
-            "Cannot resize stream to {} bytes (maximum is {} bytes)",
-            new_stream_len,
-            max_stream_len
-        );
-    }
+    // Refuse lengths that no chain can have before touching anything.
+    check_stream_len(minialloc.version(), new_stream_len)?;
     let new_start_sector = if old_start_sector == consts::END_OF_CHAIN {
         // Case 1: The stream has no existing chain.  We will allocate a new
         // chain that is all zeroes.
